@@ -58,6 +58,21 @@ static int op_chacha20_ietf_xor_ic(int argc, char **argv, FILE *o) {
     } else ietf_run(&a, o);
     hx_free(&a.m); hx_free(&a.n); hx_free(&a.k); return 0;
 }
+/* guard-only probe: huge mlen on a small buffer; "misuse" if refused, "proceeds" otherwise (the child then faults) */
+typedef struct { uint64_t mlen, ic; } guard_a;
+static void guard_run(void *a_, FILE *o) {
+    guard_a *a = (guard_a *) a_; static unsigned char buf[4096], n[12], k[32];
+    (void) o;
+    crypto_stream_chacha20_ietf_xor_ic(buf, buf, a->mlen, n, (uint32_t) a->ic, k);
+}
+static int op_ietf_guard(int argc, char **argv, FILE *o) {
+    guard_a a; char out[16]; int r;
+    if (argc != 2 || hx_u64(argv[0], &a.mlen) || hx_u64(argv[1], &a.ic) || a.ic > 0xffffffffULL) return -1;
+    if (a.mlen <= 4096) return -1;   /* only meaningful for lengths beyond the probe buffer */
+    r = hx_in_child(guard_run, &a, out, sizeof out);
+    fputs(r == 1 ? "misuse" : "proceeds", o);
+    return 0;
+}
 #define XOR_OP(NAME, FN) \
 static int NAME(int argc, char **argv, FILE *o) { \
     buf_t m, n, k; unsigned char *c; \
@@ -96,6 +111,6 @@ const hx_op ops_c03[] = {
     {"stream.salsa20", op_salsa20}, {"stream.salsa2012", op_salsa2012}, {"stream.salsa208", op_salsa208}, {"stream.xsalsa20", op_xsalsa20},
     {"stream.chacha20_xor_ic", op_chacha20_xor_ic}, {"stream.xchacha20_xor_ic", op_xchacha20_xor_ic},
     {"stream.salsa20_xor_ic", op_salsa20_xor_ic}, {"stream.xsalsa20_xor_ic", op_xsalsa20_xor_ic},
-    {"stream.chacha20_ietf_xor_ic", op_chacha20_ietf_xor_ic}, {"stream.salsa2012_xor", op_salsa2012_xor}, {"stream.salsa208_xor", op_salsa208_xor},
+    {"stream.chacha20_ietf_xor_ic", op_chacha20_ietf_xor_ic}, {"stream.ietf_guard", op_ietf_guard}, {"stream.salsa2012_xor", op_salsa2012_xor}, {"stream.salsa208_xor", op_salsa208_xor},
     {"core.hchacha20", op_hchacha}, {"core.hsalsa20", op_hsalsa}, {"core.salsa", op_core_salsa}, {NULL, NULL}
 };
